@@ -14,7 +14,7 @@ from . import common
 
 ID = 'C01'
 LEVEL = 'exploration'
-RUNS = {'quick': 6000, 'thorough': 150000}
+RUNS = {'quick': 20000, 'thorough': 600000}
 SIM_TIME_UNIT = 'samples'
 RULE = ('seeded generation of (specification over the whole STL grammar, trace of 1..12 samples, 1-3 sensor clocks with '
         'jitter/drift/jump/offset faults); a case is non-trivial when the reference value list contains a finite value and is '
@@ -34,7 +34,7 @@ def gen(rng, tier):
     nv = rng.randint(1, 3)
     vars_ = common.VARS[:nv]
     cfg = sg.GenCfg(vars=vars_, max_depth=rng.randint(2, 5), max_bound=rng.choice([2, 4, 4, 6]),
-                    p_reuse=rng.choice([0.0, 0.1, 0.3]))
+                    p_reuse=rng.choice([0.0, 0.1, 0.3]), p_loose=rng.choice([0.08, 0.08, 0.35]))
     ast = sg.gen_formula(rng, cfg)
     text = 'out = ' + sg.to_text(ast, sg.Spelling(rng)) + (';' if rng.random() < 0.8 else '')
     n = rng.choice([1, 1, 2, 2, 3, 4, 5, 6, 8, 10, 12])
